@@ -67,7 +67,19 @@ def fit_case(draw):
     zf = draw(st.sampled_from([0.0, 0.05, 0.2]))
     zeros = [i for i in range(n) if zf and (math.sin(12.9898 * i + 78.233 * noise[i % 16]) * 43758.5453) % 1.0 < zf]
     wkind = draw(st.sampled_from(['const', 'vary']))
-    return dict(x=x, nord=nord, kw=kw, ykind=ykind, amp=amp, coef=coef, noise=noise, zeros=zeros, wkind=wkind,
+    if draw(st.integers(0, 11)) == 0:
+        # round 9: exactly determined single-segment problems: a polynomial piece through as many weighted points as the order,
+        # a few weightless points among them (about one case in twelve)
+        nord = draw(st.sampled_from([4, 3, 2, 5]))
+        extra = draw(st.integers(0, 3))
+        n = nord + extra
+        x = sorted(set(span * (i + 0.3 * draw(uf)) / n for i in range(n)))
+        n = len(x)
+        zeros = sorted(draw(st.permutations(list(range(n))))[:max(0, n - nord)])
+        kw = dict(nbkpts=2)
+        fam = 'exactly-determined'
+    return dict(x=x, nord=nord, kw=kw, ykind=ykind, amp=amp, coef=coef, noise=noise, zeros=zeros, wkind=wkind, fam=fam,
+                wscale=draw(st.sampled_from([1.0, 1.0, 1.0, 1e-12, 1e-6, 1e6, 1e9, 1e12])),
                 alpha=draw(uf), beta=draw(uf), xdtype=draw(st.sampled_from(['i8', 'u2', 'u4', 'i4', 'u8'])) if fam == 'pixels' else None,
                 counts=draw(st.sampled_from([None, None, 'i2', 'u2', 'i4'])))
 
@@ -96,6 +108,12 @@ def fit_body(case):
     n = len(x)
     w = np.ones(n) if case['wkind'] == 'const' else 0.5 + np.abs(np.sin(np.arange(n) * 0.37)) * 3
     w[case['zeros']] = 0.0
+    # round 9: the unit of the weights is free (sigma = 1e-5 everywhere gives 1e10): the minimiser does not depend on it
+    w = w * case.get('wscale', 1.0)
+    if case.get('wscale', 1.0) != 1.0:
+        note_label('weight-scale:%g' % case['wscale'])
+    if case.get('fam') == 'exactly-determined':
+        note_label('exactly-determined')
     y = make_y(case, x)
 
     def fresh():
